@@ -97,6 +97,8 @@ type HarnessResult struct {
 	CrossQueries []CrossQuery
 	Outs         [][]string
 	SchedStates, SchedTransitions, SchedValidated int
+	ViolCount           map[string]int
+	NViolations         int
 	Unwinds             map[string]int
 	MaxStepsPath        int64
 	StoppedOnViolations bool
@@ -299,9 +301,16 @@ func (ex *Explorer) collectPath(in *Interp) {
 		r.Stubs[s] = true
 	}
 	for _, v := range p.viols {
-		if len(r.Violations) < 200 {
+		if r.ViolCount == nil {
+			r.ViolCount = map[string]int{}
+		}
+		sig := violSig(&v)
+		r.ViolCount[sig]++
+		// keep at most 6 witnesses per signature, 400 in total
+		if r.ViolCount[sig] <= 6 && len(r.Violations) < 400 {
 			r.Violations = append(r.Violations, v)
 		}
+		r.NViolations++
 	}
 	for _, k := range p.notes {
 		r.Distinct[k] = true
@@ -351,7 +360,7 @@ func (ex *Explorer) collectPath(in *Interp) {
 	if stopV == 0 {
 		stopV = 48
 	}
-	if len(r.Violations) >= stopV {
+	if r.NViolations >= stopV {
 		r.StoppedOnViolations = true
 		ex.stopped = true
 		ex.cond.Broadcast()
